@@ -156,6 +156,30 @@ static void do_eval(const unsigned char *s, int n)
 	free(str);
 }
 
+/* an injection that its owner gives up on: the string does not fit the ring, the injecting fibre is killed while it waits
+ * for room; what had been injected so far is in the line (reported as an Eval of exactly those characters), the rest never
+ * arrives - and the next injection starts from the beginning of ITS string */
+static void do_eval_abandon(int len)
+{
+	char *str = malloc(len + 1);
+	memset(str, 'a', len); str[len] = 0;
+	cap_clear();
+	evalstr = str; evaldone = 0;
+	PT_INIT(&evalpt);
+	fibre_init(&evalfibre, evalfn);
+	evalfn(&evalfibre);                   /* one activation: fills the ring, finds it full, yields */
+	fibre_kill(&evalfibre);               /* the owner gives up */
+	settle();                             /* the console consumes what did arrive */
+	int got = 0;
+	for (const char *q = con->scratch.buf; *q == 'a' && got < len; q++) got++;
+	printf("{\"e\":\"Eval\",\"s\":[");
+	for (int i = 0; i < got; i++) printf("%s97", i ? "," : "");
+	printf("],\"done\":1,\"disp\":[%s],\"calls\":[%s],", cap[0].d, cap[0].calls);
+	out_json();
+	line_json();
+	printf("}\n");
+	free(str);
+}
 static const unsigned char alpha[] = { 97, 98, 32, 9, 39, 34, 8, 3, 10 };
 static void streams(int maxlen, int path)
 {
@@ -303,6 +327,15 @@ static void evaledge(void)
 			if (i % 2 == 0) { do_char(97, path); do_char(32, path); do_char(120, path); do_char(10, path); }
 		}
 		do_char(98, path); do_char(10, path);
+		/* abandoned injections of several lengths, each followed by Ctrl-C and a complete injection that must run once */
+		for (int len = 14; len <= 40; len += 5) {
+			do_eval_abandon(len);
+			do_char(3, path);
+			do_eval((const unsigned char *)"b q\n", 4);
+			do_eval_abandon(len + 1);
+			do_char(10, path);
+			do_eval((const unsigned char *)"ab\n", 3);
+		}
 	}
 }
 static void regorders(long seed)
